@@ -25,3 +25,12 @@ claim('C17', 'symbolic execution of the real _read_until on an interval-abstract
       'is additionally run at byte level with forced block sizes and header paddings and symbolic diff content.',
       BASE_NOTE + ' Searches needing more reads than the bound are cut and counted in the evidence.',
       'DESIGN.md section 4, C17; 2.5')
+
+claim('C14', 'differential bounded symbolic execution: real get_unified_diff_hunks vs reference state machine REF_HUNK; inductive step extracted from the current source run from an arbitrary symbolic state (z3 LIA + QF_BV)',
+      'The loop body of get_unified_diff_hunks is lifted from the current source and executed from an arbitrary '
+      'pre-state (all counters, start lines, first/last changed lines symbolic integers under the stated invariant) '
+      'on one symbolic line; z3 shows the post-state, appended hunk entry and raised error equal the reference step, '
+      'which covers any number of lines by induction. The whole function is additionally run against the reference '
+      'on every sequence of 0..2 (quick) / 0..3 (thorough) symbolic template lines incl. the empty list.',
+      BASE_NOTE + ' Reference parser /verif/ref/hunks.py (validated against the repository test inputs each run).',
+      'DESIGN.md section 4, C14; Appendix A')
